@@ -1,1 +1,111 @@
+(* C17 - SearchableObjectHolder is an atomic, memory-safe name-to-object map.
+   Statements only; every proof is `exact <lemma>` into Proofs/SOHProofs.v.
+   All theorems quantify over the throw plan th (which predicate invocations throw), any
+   number of client threads with any programs over the whole API, and every schedule. *)
+From Coq Require Import List Arith ZArith Lia Bool.
+Import ListNotations.
 From GV Require Import Sched Events SOHModel SOHProofs.
+Local Open Scope Z_scope.
+
+(* ---------- memory safety ---------- *)
+(* soh_iter_safe: no reachable state has faulted - no use of an erased map node (Fault F_ITER), no
+   access to a destroyed object (Fault F_UAF) - and no step from a reachable state logs a Fault *)
+Theorem soh_iter_safe : forall th progs s, R th progs s -> faulted (gl s) = false.
+Proof. exact never_faulted. Qed.
+Theorem soh_no_fault_event : forall th progs s t c l g' l' es,
+  R th progs s -> nth_error (thr s) t = Some l -> tstep t c (gl s) l = Some (g', l', es) ->
+  existsb is_fault es = false.
+Proof. exact no_fault_event. Qed.
+Theorem soh_fault_is_sticky_flag : forall unfixed t c g l g' l' es,
+  tstep_gen unfixed t c g l = Some (g', l', es) -> existsb is_fault es = true -> faulted g' = true.
+Proof. exact fault_sets_flag. Qed.
+
+(* soh_unfixed_refuted: with the order of the original header (erase the node, then read its key)
+   the one-thread program  addObject(n0, obj, tag); removeObject(pred)  faults *)
+Theorem soh_unfixed_refuted :
+  exists progs sched, faulted (gl (run glob loc (tstep_gen true) (init [] progs) sched)) = true.
+Proof. exact unfixed_faults. Qed.
+
+(* soh_returned_alive: an object held by a client - in a slot, or as the argument / result of a call
+   in flight - has use-count >= 1 and is alive, whatever other threads removed meanwhile *)
+Theorem soh_returned_alive : forall th progs s u l p,
+  R th progs s -> nth_error (thr s) u = Some l ->
+  (exists b, getslot b (slots l) = Some p) \/ held l = Some p ->
+  (1 <= rc_of (heap (gl s)) (pid p))%nat /\ alive (heap (gl s)) p = true.
+Proof. exact returned_alive. Qed.
+Theorem soh_stored_alive : forall th progs s k p,
+  R th progs s -> lookup k (omap (gl s)) = Some p -> (1 <= rc_of (heap (gl s)) (pid p))%nat.
+Proof. exact stored_alive. Qed.
+(* the use-count of every object is exactly (entries of the map that hold it) + (client references):
+   nothing leaks and no reference is lost *)
+Theorem soh_use_count_exact : forall th progs s id,
+  R th progs s -> rc_of (heap (gl s)) id = (cnt_o id (omap (gl s)) + list_sum (map (cnt_loc id) (thr s)))%nat.
+Proof. exact use_count_exact. Qed.
+
+(* ---------- atomicity ---------- *)
+(* soh_atomic_sections: a thread is between its lock and its unlock exactly when it owns mapLock;
+   at most one thread is; the maps and the call counter change only in steps of the thread that
+   owns the mutex after the step *)
+Theorem soh_atomic_sections : forall th progs s u,
+  R th progs s -> (mtx (gl s) = Some u <-> holds (pcof (thr s) u) = true).
+Proof. exact mutex_iff_inside. Qed.
+Theorem soh_mutual_exclusion : forall th progs s u v, R th progs s ->
+  holds (pcof (thr s) u) = true -> holds (pcof (thr s) v) = true -> u = v.
+Proof. exact mutual_exclusion. Qed.
+Theorem soh_changes_inside_section : forall th progs s t c l g' l' es,
+  R th progs s -> nth_error (thr s) t = Some l -> tstep t c (gl s) l = Some (g', l', es) ->
+  (omap g' = omap (gl s) /\ tmap g' = tmap (gl s) /\ calls g' = calls (gl s)) \/
+  (mtx g' = Some t /\ (mtx (gl s) = None \/ mtx (gl s) = Some t)).
+Proof. exact changes_inside_section. Qed.
+
+(* soh_linearizable.  The ghost log receives one entry (thread, method, argument, result) in the
+   step that releases the mutex, which is the step that emits the method's return event with that
+   result (soh_log_at_unlock).  In every reachable state the log is a legal history of the
+   sequential map apply_op - every logged result is the one the method returns when run alone on
+   the state produced by the entries before it - and whenever the mutex is free the two maps are
+   exactly the state that history produces (soh_linearizable).  soh_section_refines is the
+   per-method refinement inside a section (stepwise iteration = the method run alone).
+   Not mechanised: the general meta-theorem "one linearization point inside each call interval
+   implies linearizability" (Herlihy-Wing); here the point (the unlock step) lies between the
+   operation's invoke and return events by construction of the pc automaton. *)
+Theorem soh_linearizable : forall th progs s, R th progs s ->
+  legal (throws (gl s)) st0 (log (gl s)) /\ (mtx (gl s) = None -> cur (gl s) = hist (gl s)).
+Proof. exact log_is_history. Qed.
+Theorem soh_log_at_unlock : forall t c g l g' l' es, tstep t c g l = Some (g', l', es) ->
+  (log g' = log g /\ (holds (at_ l) = false \/ exists o k, at_ l = Call o k)) \/
+  (exists o a r, at_ l = Unlock o a r /\ log g' = log g ++ [Entry t o a (Some r)] /\ mtx g' = None /\
+                 In (E K_UNLOCK O_MTX 0) es /\ In (E K_RET 0 r) es) \/
+  (exists o, at_ l = XUnlock o /\ log g' = log g ++ [Entry t (OP o) null_ptr None] /\ mtx g' = None /\
+             In (E K_UNLOCK O_MTX 0) es /\ In (E K_CATCH 0 0) es).
+Proof. exact log_step. Qed.
+Theorem soh_section_refines : forall th progs s u, R th progs s -> lin_pc (gl s) (pcof (thr s) u).
+Proof. exact section_refines. Qed.
+Theorem soh_throw_plan_constant : forall th progs s, R th progs s -> throws (gl s) = th.
+Proof. exact throws_const. Qed.
+
+(* ---------- exception safety (used by C20) ---------- *)
+(* soh_exn_safe: a method that ends with an exception leaves both maps as they were (sequential
+   level); the step in which the predicate throws changes neither map and goes to the unwinding
+   pc, whose only step releases the mutex (soh_log_at_unlock, third case); a thread back in client
+   code owns no mutex *)
+Theorem soh_exn_safe : forall thr o a s s', apply_op thr o a s = (s', None) -> m_o s' = m_o s /\ m_t s' = m_t s.
+Proof. exact exn_unchanged. Qed.
+Theorem soh_throw_step : forall t c g l g' l' es, tstep t c g l = Some (g', l', es) ->
+  existsb is_throw es = true -> omap g' = omap g /\ tmap g' = tmap g /\ exists o, at_ l' = XUnlock o.
+Proof. exact throw_step. Qed.
+Theorem soh_no_lock_left : forall th progs s u,
+  R th progs s -> holds (pcof (thr s) u) = false -> mtx (gl s) <> Some u.
+Proof. exact top_level_owns_nothing. Qed.
+
+(* ---------- progress ---------- *)
+Theorem soh_holder_moves : forall th progs s a c, R th progs s -> mtx (gl s) = Some a -> enabled glob loc tstep s a c.
+Proof. exact holder_enabled. Qed.
+Theorem soh_blocks_only_on_mutex : forall th progs s t c l,
+  R th progs s -> nth_error (thr s) t = Some l -> tstep t c (gl s) l = None ->
+  fin l = true \/
+  ((exists o, at_ l = SLock o) \/ (exists o, at_ l = PLock o)) /\
+  exists a, mtx (gl s) = Some a /\ a <> t /\ enabled glob loc tstep s a 0.
+Proof. exact blocks_only_on_mutex. Qed.
+Theorem soh_deadlock_free : forall th progs s,
+  R th progs s -> quiescent glob loc tstep s -> all_fin glob loc fin s = true.
+Proof. exact quiescent_all_finished. Qed.
